@@ -69,7 +69,8 @@ def polygon_stream(ctx, n):
         # equality
         P0 = g.Polygon(*[g.Point(float(x), float(y)) for x, y in vs])
         r = rng.randrange(len(vs))
-        P1 = g.Polygon(*[g.Point(float(x) * 2, float(y) * 2, 2.0) if False else g.Point(float(x), float(y)) for x, y in vs[r:] + vs[:r]])
+        # rolled, and every vertex with a homogeneous factor of its own (as vertices produced by meet / join have)
+        P1 = g.Polygon(*[(lambda w: g.Point(np.array([float(x) * w, float(y) * w, w])))(rng.choice([1.0, 2.0, -1.0, 0.5, -3.0])) for x, y in vs[r:] + vs[:r]])
         P2 = g.Polygon(*[g.Point(float(x), float(y)) for x, y in reversed(vs)])
         other = [(x, y) for x, y in vs]
         other[0] = (other[0][0] + 5, other[0][1])
@@ -95,6 +96,18 @@ def polygon_stream(ctx, n):
         exp3 = emb(cen[0], cen[1])
         if c3[0] != "ok" or not np.allclose(c3[1][:3], exp3, rtol=1e-7, atol=1e-8):
             ctx.disagree(f"C17:centroid:3d:{'convex' if is_convex(vs) else 'concave'}", desc, exp3, c3[1:3] if c3[0] != "ok" else c3[1].tolist(), replay=[desc])
+        if len(vs) == 3:
+            # circumcentre of a triangle in a plane of space far from the origin (offset coefficient of the plane dominates)
+            far = [10 * float(o[j]) + 20.0 for j in range(3)]
+            Pf = [g.Point(*[far[j] + x * u[j] + y * v[j] for j in range(3)]) for x, y in vs]
+            ctx.count("circumcenter:3d")
+            cc = call_impl(lambda: g.Triangle(*Pf).circumcenter)
+            if cc[0] != "ok":
+                ctx.disagree("C17:circumcenter:3d:error", desc, "a point", cc[1:3], replay=[desc])
+            else:
+                ds = [float(g.dist(cc[1], p)) for p in Pf]
+                if not (close(ds[0], ds[1], 1e-6) and close(ds[1], ds[2], 1e-6)):
+                    ctx.disagree("C17:circumcenter:3d", desc + f" moved to {far}", "equidistant from the vertices", ds, replay=[desc])
         # move the object: rotation about a generic axis + translation, then read the measure from the moved object
         ang = math.atan2(4, 3)
         T = g.translation(3, -2, 5) * g.rotation(ang, axis=g.Point(2, 3, 6))
